@@ -12,6 +12,20 @@ CLAIMED = {
         "model hand-written, tied by correspondence; extraction cross-checked by vm_compute",
    technique="Coq proof (table facts by vm_compute at every build) + differential correspondence via extracted model"),
 }
+CLAIMED["C01"] = dict(engine="split", design="4 C01",
+   text="Coq theorems over the splitter machine: for every text the machine ends with blocks (the two 'should never happen' "
+        "exceptions are unreachable thanks to the regex look-ahead, proved on the lexer model); tied to /repo by differential "
+        "correspondence of Splitter/parse_string on exhaustive token sequences, mutations, garbage and size-scaled inputs, the lexer "
+        "against re.finditer on the regex read from the source, and a Python oracle running the default parse and write stacks.",
+   note="partial: the default parse/write stacks are covered by the oracle and by C05/C06/C10/C11's models, the theorem here is about "
+        "the splitter; Python recursion depth and memory are environment limits observed by the size-scaled stream only",
+   technique="Coq proof (state-machine invariant over fold_left) + differential correspondence via extracted model")
+CLAIMED["C03"] = dict(engine="split", design="4 C03",
+   text="Coq theorem for ALL input texts: the raw texts of the emitted blocks tile the scanned text with whitespace-only gaps and each "
+        "start_line is the true line; each field line is the true line of an '=' of its entry. Tied to /repo by differential "
+        "correspondence (every block attribute compared) and an independent Python tiling/line oracle.",
+   note="CPython's isspace and \\w enter as per-character flags; model hand-written, tied by correspondence; extraction cross-checked by vm_compute",
+   technique="Coq proof (ghost-state invariant over the splitter fold) + differential correspondence via extracted model")
 PENDING = {}
 
 def main():
